@@ -31,7 +31,19 @@ type Ctx struct {
 	Known      []string       // known findings met in this run (signatures)
 }
 
-func (c *Ctx) Describe(f string, a ...any) { c.Desc = append(c.Desc, fmt.Sprintf(f, a...)) }
+func (c *Ctx) Describe(f string, a ...any) {
+	c.Desc = append(c.Desc, fmt.Sprintf(f, a...))
+	lastDesc = c.Desc
+}
+
+// lastDesc: the description of the run in progress, for reports written by a
+// deferred function when the testing package ends the test early (race builds).
+var lastDesc []string
+
+// ignoreLeak is set by a workload that simulated the death of the process:
+// goroutines of the dead process that are still blocked when the bubble ends
+// are not a leak. Reset at the start of every run.
+var ignoreLeak bool
 func (c *Ctx) Fault(kind string)           { c.Faults[kind]++ }
 func (c *Ctx) MixState(x uint64)           { c.StateFP = (c.StateFP ^ x) * 1099511628211 }
 func (c *Ctx) Fail(sig, f string, a ...any) {
@@ -71,6 +83,8 @@ type Result struct {
 // ExecOne runs one simulated execution of p on the given tape in a fresh bubble.
 func ExecOne(t *testing.T, p *Prop, tape *zsim.Tape, tier string) *Result {
 	res := &Result{Faults: map[string]int{}}
+	lastDesc = nil
+	ignoreLeak = false
 	func() {
 		defer func() {
 			// the end-of-bubble deadlock panic after an aborted run with
@@ -78,7 +92,10 @@ func ExecOne(t *testing.T, p *Prop, tape *zsim.Tape, tier string) *Result {
 			if e := recover(); e != nil {
 				if res.Viol == nil {
 					msg := fmt.Sprint(e)
-					if strings.Contains(msg, "blocked goroutines remain") {
+					if strings.Contains(msg, "blocked goroutines remain") && ignoreLeak {
+						// a simulated process death leaves the dead process's
+						// background goroutines where they were
+					} else if strings.Contains(msg, "blocked goroutines remain") {
 						res.Viol = &zsim.Violation{Sig: "goroutine leak: goroutines started during the run are still blocked after everything was stopped", Detail: msg}
 					} else {
 						res.Viol = &zsim.Violation{Sig: "panic at the end of the run", Detail: msg}
